@@ -16,3 +16,5 @@ mod validate_shape;
 pub(crate) mod vanishing_poly;
 pub mod vars;
 pub mod verifier;
+#[cfg(feature = "verif_hooks")]
+pub mod verif_hooks;
